@@ -267,7 +267,7 @@ def parse_message(data):
 class Conn:
     """A raw client connection: SASL EXTERNAL handshake, then framed messages."""
 
-    def __init__(self, path, uid=None, negotiate_fds=False, auth=True, abstract=False, timeout=10.0):
+    def __init__(self, path, uid=None, negotiate_fds=False, auth=True, abstract=False, timeout=10.0, gids=None):
         self.s = socket.socket(socket.AF_UNIX, socket.SOCK_STREAM)
         self.s.settimeout(timeout)
         self.rbuf = bytearray()
@@ -279,6 +279,9 @@ class Conn:
         addr = ('\0' + path) if abstract else path
         if uid is not None and uid != os.geteuid():
             # SO_PEERCRED reports the effective uid at connect() time
+            # ... and SO_PEERGROUPS the supplementary groups (the bus adds the effective gid and sorts)
+            if gids:
+                os.setgroups([g for g in gids if g != uid])
             os.setegid(uid if uid != 65534 else 65534)
             os.seteuid(uid)
             try:
@@ -286,6 +289,8 @@ class Conn:
             finally:
                 os.seteuid(0)
                 os.setegid(0)
+                if gids:
+                    os.setgroups([])
             self.uid = uid
         else:
             self.s.connect(addr)
